@@ -376,6 +376,11 @@ func c09Cases(tier string) []c09Case {
 			cs = append(cs, c09Case{Kind: "killat", P: pr[0], N: pr[1], From: from, To: from + 7, Stride: points})
 		}
 	}
+	// the fully wired sidecar (injector, scrape manager, proxy as in cmd/kvass/sidecar.go) under a configuration
+	// that knows only some of the assigned jobs: what it acknowledged is what a restart resumes
+	for _, cfgJobs := range []string{"node", "node,kubelet", "other"} {
+		cs = append(cs, c09Case{Kind: "wired", P: cfgJobs})
+	}
 	nk := 6
 	if tier == "thorough" {
 		nk = 60
@@ -395,6 +400,9 @@ func runC09(w *core.WorkerCtx, idx int) *core.CaseResult {
 	}
 	if c.Kind == "killat" {
 		return runC09KillAt(w, idx, c)
+	}
+	if c.Kind == "wired" {
+		return runC09Wired(w, idx, c)
 	}
 	dir := filepath.Join(w.Scratch, fmt.Sprintf("store-%d", idx))
 	defer os.RemoveAll(dir)
@@ -644,4 +652,59 @@ func runC09KillAt(w *core.WorkerCtx, idx int, c c09Case) *core.CaseResult {
 
 func sidecarInfo(m map[string][]*target.Target) sidecar.TargetsInfo {
 	return sidecar.TargetsInfo{Targets: m}
+}
+
+// runC09Wired: acknowledged updates through the API of a fully wired sidecar, every ordered pair of shapes,
+// then a restart (a fresh targets manager on the same directory, and a fresh fully wired sidecar).
+func runC09Wired(w *core.WorkerCtx, idx int, c c09Case) *core.CaseResult {
+	res := &core.CaseResult{Sig: "wired|" + c.P, Nontrivial: true}
+	var sb strings.Builder
+	sb.WriteString("global:\n  scrape_interval: 15s\nscrape_configs:\n")
+	for _, j := range strings.Split(c.P, ",") {
+		fmt.Fprintf(&sb, "- job_name: %s\n  static_configs:\n  - targets: ['unused.example:1']\n", j)
+	}
+	for _, p := range c09Shapes {
+		for _, n := range c09Shapes {
+			dir := filepath.Join(w.Scratch, fmt.Sprintf("wired-%d-%s-%s", idx, p, n))
+			in, err := sc.New(sc.Options{StoreDir: dir})
+			if err != nil {
+				res.Inconcl = "sidecar: " + err.Error()
+				return res
+			}
+			if err := in.PushConfig(sb.String()); err != nil {
+				res.Inconcl = "config: " + err.Error()
+				return res
+			}
+			P, N := c09Assignment(p), c09Assignment(n)
+			if err := in.UpdateTargets(P); err != nil {
+				res.Inconcl = "update P: " + err.Error()
+				return res
+			}
+			if err := in.UpdateTargets(N); err != nil {
+				res.Inconcl = "update N: " + err.Error()
+				return res
+			}
+			res.Execs++
+			res.AddStat("wired_acknowledged_updates", 2)
+			f := newTM(dir)
+			if err := f.Load(); err != nil {
+				res.Violate("C09/wired/start-fails", "previous=%s new=%s (configuration knows jobs %s): restart fails: %v", p, n, c.P, err)
+			} else if got := targetsJSON(f.TargetsInfo().Targets); got != targetsJSON(N) {
+				res.Violate("C09/wired/acknowledged-update-lost", "previous=%s new=%s, both acknowledged by a fully wired sidecar whose configuration knows jobs [%s]: a restart resumes %s, acknowledged %s", p, n, c.P, clipS(got, 200), clipS(targetsJSON(N), 200))
+			}
+			// and a fully wired restart (its Load() runs the callbacks and re-saves)
+			if in2, err := sc.New(sc.Options{StoreDir: dir}); err == nil {
+				_ = in2.PushConfig(sb.String())
+				g := newTM(dir)
+				if err := g.Load(); err == nil {
+					if got := targetsJSON(g.TargetsInfo().Targets); got != targetsJSON(N) {
+						res.Violate("C09/wired/lost-after-second-start", "previous=%s new=%s (configuration knows jobs [%s]): after a wired restart the store holds %s, acknowledged %s", p, n, c.P, clipS(got, 200), clipS(targetsJSON(N), 200))
+					}
+				}
+			}
+			os.RemoveAll(dir)
+		}
+	}
+	res.Viol = dedupeV(res.Viol)
+	return res
 }
